@@ -123,7 +123,8 @@ class Ctx:
                 json.dump(payload, f)
             tlc.write_mc(d, name, trace_module, spec='TSpec', invariants=invariants, deadlock=True, consts=consts,
                          cfg_consts=cfg_consts)
-            r = tlc.run(d, name, workers=workers, env={'TRACE_FILE': tf}, coverage=False, timeout=timeout)
+            r = tlc.run(d, name, workers=workers, env={'TRACE_FILE': tf}, coverage=False, timeout=timeout,
+                        continue_=True)
             self.states += r.distinct
             self.transitions += r.generated
             self.tlc_runs.append(dict(name=name + ('#%d' % rounds), module=trace_module, kind='trace_validation',
@@ -132,13 +133,19 @@ class Ctx:
                 break
             if r.error not in ('deadlock', 'invariant'):
                 raise Machinery('trace validation %s: unexpected TLC error %s' % (name, r.error))
-            last = r.trace[-1][1] if r.trace else {}
-            if 'tid' not in last:
+            found = {}
+            for tr in r.traces:
+                last = tr[-1][1] if tr else {}
+                if 'tid' in last and last['tid'] not in found:
+                    found[last['tid']] = last
+            if not found:
                 raise Machinery('trace validation %s: cannot locate rejected trace\n%s' % (name, r.out[-2000:]))
-            t = live[last['tid'] - 1]
-            rejects.append((t, last.get('l'), dict(last, _error=r.error, _name=r.error_name)))
-            live.remove(t)
-        self.traces += len(traces) - len(rejects)
+            for tidv, last in sorted(found.items()):
+                t = live[tidv - 1]
+                rejects.append((t, last.get('l'), dict(last, _error=r.error, _name=r.error_name)))
+            break       # -continue explored every trace: all rejections are in this run
+        if not rejects:        # with rejections TLC may not have reported every rejected trace
+            self.traces += len(traces)
         self.trace_events += nevents
         return rejects
 
